@@ -27,7 +27,9 @@ NoFlag == UNCHANGED bad
 InIds(c) == c \in ConnIds
 
 \* variables of Transport.tla the trace does not drive
-RestNB == UNCHANGED <<last, clock, tnow, cst, caddr, ncalls, nkills>>
+\* (here cconn[k] is the connection last handed to caller k, set at t.get; cst[k] = "inflight" from api.reg to api.ret)
+RestNC == UNCHANGED <<last, clock, tnow, caddr, ncalls, nkills>>
+RestNB == RestNC /\ UNCHANGED cst
 Rest == RestNB /\ UNCHANGED broken
 KeepBusy == UNCHANGED <<busy, cconn>>
 
@@ -40,7 +42,8 @@ TrReset ==
     /\ used' = {} /\ up' = [a \in Addrs |-> TRUE] /\ closed' = FALSE
     /\ failsSince' = [k \in Callers |-> 0]
     /\ busy' = [c \in ConnIds |-> 0] /\ cconn' = [k \in Callers |-> NoConn]
-    /\ Rest /\ Adv /\ NoFlag
+    /\ broken' = [c \in ConnIds |-> FALSE] /\ cst' = [k \in Callers |-> "idle"]
+    /\ RestNC /\ Adv /\ NoFlag
 
 TrDial ==
     /\ IsEv("t.dial")
@@ -84,7 +87,8 @@ TrGet ==
        /\ bad' = bad \cup (IF addrOf[c] # a THEN {<<l, "wrongaddr">>} ELSE {})
                      \cup (IF ~alive[c] THEN {<<l, "deadhandout">>} ELSE {})
                      \cup (IF E.b = 1 /\ Len(conns[a]) >= MaxConns THEN {<<l, "appendfull">>} ELSE {})
-    /\ UNCHANGED <<idle, addrOf, alive, open, used, up, closed, failsSince>> /\ Rest /\ KeepBusy /\ Adv
+    /\ cconn' = IF E.c \in Callers THEN [cconn EXCEPT ![E.c] = E.s] ELSE cconn
+    /\ UNCHANGED <<idle, addrOf, alive, open, used, up, closed, failsSince, busy>> /\ Rest /\ Adv
 
 \* a caller saw ErrShutdown (or what the library takes for it) and marks the connection dead, then closes it: the connection
 \* must really have ended - cut by the environment, closed by housekeeping or by Close - not be a healthy one
@@ -159,7 +163,8 @@ TrApiReg ==
     /\ IsEv("api.reg") /\ InIds(E.s)
     /\ busy' = [busy EXCEPT ![E.s] = @ + 1]
     /\ cconn' = [cconn EXCEPT ![E.c] = E.s]
-    /\ UNCHANGED <<conns, cursor, idle, addrOf, alive, open, used, up, closed, failsSince>> /\ Rest /\ Adv /\ NoFlag
+    /\ cst' = [cst EXCEPT ![E.c] = "inflight"]
+    /\ UNCHANGED <<conns, cursor, idle, addrOf, alive, open, used, up, closed, failsSince, broken>> /\ RestNC /\ Adv /\ NoFlag
 \* housekeeping found an idle-queue entry with calls in flight and put it back at the rear
 TrIdleSpare ==
     /\ IsEv("t.idle.spare") /\ InIds(E.s)
@@ -175,11 +180,17 @@ TrApiRet ==      \* E.a: 0 ok, 1 ErrShutdown, 2 ErrDial, 3 other, 4 the caller's
                      \cup (IF E.a = 3 THEN {<<l, "othererror">>} ELSE {})
                      \cup (IF E.a = 7 THEN {<<l, "rawrefusal">>} ELSE {})
     /\ LET k == E.c IN
-       IF k \in Callers /\ cconn[k] # NoConn
-         THEN /\ busy' = [busy EXCEPT ![cconn[k]] = @ - 1]
+       IF k \in Callers
+         THEN /\ busy' = IF cst[k] = "inflight" /\ cconn[k] # NoConn THEN [busy EXCEPT ![cconn[k]] = @ - 1] ELSE busy
               /\ cconn' = [cconn EXCEPT ![k] = NoConn]
-         ELSE KeepBusy
-    /\ UNCHANGED <<conns, cursor, idle, addrOf, alive, open, used, up, closed>> /\ Rest /\ Adv
+              /\ cst' = [cst EXCEPT ![k] = "idle"]
+         ELSE KeepBusy /\ UNCHANGED cst
+    \* "a connection on which a call has failed with ErrShutdown is never handed to a call started afterwards": for the forms that
+    \* learn the outcome before they return (E.k; reading R3) the connection counts as given up from here on, whether or not the
+    \* library marked it
+    /\ alive' = IF E.c \in Callers /\ cconn[E.c] # NoConn /\ E.a = 1 /\ E.k \in {"call", "ctx", "stream"}
+                THEN [alive EXCEPT ![cconn[E.c]] = FALSE] ELSE alive
+    /\ UNCHANGED <<conns, cursor, idle, addrOf, open, used, up, closed, broken>> /\ RestNC /\ Adv
 
 TrKill ==
     /\ IsEv("env.kill")
